@@ -91,11 +91,11 @@ class KexDH:  # pragma: nocover
         self.__ca_key_type = ''
         self.__ca_n_len = 0
 
-        packet_type, payload = s.read_packet(2)
+        packet_type, payload = s.read_packet(2, exit_on_error=False)
 
         # Skip any & all MSG_DEBUG messages.
         while packet_type == Protocol.MSG_DEBUG:
-            packet_type, payload = s.read_packet(2)
+            packet_type, payload = s.read_packet(2, exit_on_error=False)
 
         if packet_type != -1 and packet_type not in [Protocol.MSG_KEXDH_REPLY, Protocol.MSG_KEXDH_GEX_REPLY]:  # pylint: disable=no-else-raise
             raise KexDHException('Expected MSG_KEXDH_REPLY (%d) or MSG_KEXDH_GEX_REPLY (%d), but got %d instead.' % (Protocol.MSG_KEXDH_REPLY, Protocol.MSG_KEXDH_GEX_REPLY, packet_type))
@@ -389,13 +389,13 @@ class KexGroupExchange(KexDH):
         s.write_int(maxbits)
         s.send_packet()
 
-        packet_type, payload = s.read_packet(2)
+        packet_type, payload = s.read_packet(2, exit_on_error=False)
         if packet_type not in [Protocol.MSG_KEXDH_GEX_GROUP, Protocol.MSG_DEBUG]:
             raise KexDHException('Expected MSG_KEXDH_GEX_REPLY (%d), but got %d instead.' % (Protocol.MSG_KEXDH_GEX_REPLY, packet_type))
 
         # Skip any & all MSG_DEBUG messages.
         while packet_type == Protocol.MSG_DEBUG:
-            packet_type, payload = s.read_packet(2)
+            packet_type, payload = s.read_packet(2, exit_on_error=False)
 
         try:
             # Parse the modulus (p) and generator (g) values from the server.
